@@ -161,6 +161,7 @@ type Ctx struct {
 	Seed     int64
 	Shard    int
 	NShards  int
+	ticks    int
 	Deadline time.Time
 	Replay   *Violation // non-nil: replay only this case
 }
@@ -168,6 +169,14 @@ type Ctx struct {
 func (c *Ctx) Quick() bool     { return c.Tier != "thorough" }
 func (c *Ctx) Mine(i int) bool { return c.NShards <= 1 || i%c.NShards == c.Shard }
 func (c *Ctx) Expired() bool   { return time.Now().After(c.Deadline) }
+
+// ExpiredEvery checks the deadline on every n-th call (n a power of two). It counts calls of this
+// worker: testing "i&(n-1) == 0" on a subset index would only ever fire in the worker whose shard
+// number is congruent to 0, because a worker only sees the indexes of its own shard.
+func (c *Ctx) ExpiredEvery(n int) bool {
+	c.ticks++
+	return c.ticks&(n-1) == 0 && c.Expired()
+}
 
 // Part is one independently shardable piece of a check.
 type Part struct {
